@@ -438,12 +438,12 @@ Proof.
 Qed.
 
 Lemma add_spec h s m e :
-  inv h s m -> exists s', add h next_fixed s e = HOk s' /\ inv h s' (fun id => if fst e =? id then Some e else m id).
+  inv h s m -> exists s', add_ddict h next_fixed s e = HOk s' /\ inv h s' (fun id => if fst e =? id then Some e else m id).
 Proof.
   intros (lg & G & S & R & C & L).
   destruct (pow2_ge64 lg G) as (k & K & K16).
   pose proof S as (S1 & S2 & S3).
-  unfold add, over_load, HASHSET_COUNT_MULT, HASHSET_SIZE_MULT.
+  unfold add_ddict, over_load, HASHSET_COUNT_MULT, HASHSET_SIZE_MULT.
   assert (NZ : hs_size s <> 0) by lia.
   destruct (N.eqb_spec (hs_count s * 4 / hs_size s * 3) 0) as [Z|Z]; simpl.
   - (* below the load factor: plain emplace *)
@@ -544,6 +544,18 @@ Proof. vm_compute. auto. Qed.
 Example ddict_hashset_wrap_example :
   match add_all xxh_hash next_fixed [(3, 0); (47, 1)] create with
   | HOk s => tget (hs_tab s) 63 = Some (Some (3, 0)) /\ tget (hs_tab s) 0 = Some (Some (47, 1))
+  | _ => False
+  end.
+Proof. vm_compute. auto. Qed.
+
+(* The lookup loop as written ("currDictID == dictID || currDictID == 0") treats a stored raw-content DDict
+   (dictID 0) like an empty slot: dictIDs 0 and 26 share slot 52 of the 64-entry table, and after inserting both
+   the lookup of 26 returns the dictID-0 DDict (handle 7), not the DDict 26 stored in the next slot.  In bounds and
+   terminating, but not the finite map - which is why [ddict_hashset_finite_map] assumes non-zero dictIDs. *)
+Example ddict_hashset_id0_shadows :
+  get_index xxh_hash 64 0 = 52 /\ get_index xxh_hash 64 26 = 52 /\
+  match add_all xxh_hash next_fixed [(0, 7); (26, 1)] create with
+  | HOk s => tget (hs_tab s) 53 = Some (Some (26, 1)) /\ get xxh_hash next_fixed s 26 = HOk (Some (0, 7))
   | _ => False
   end.
 Proof. vm_compute. auto. Qed.
